@@ -742,6 +742,12 @@ pub fn c06(cfg: &Config, tr: &Trace, an: &Analysis, out: &mut Vec<Violation>) {
     let total_scen = an.scens.len();
     let mut q = tr.quiescent_at.iter().peekable();
     let mut open: Vec<(String, usize)> = Vec::new();
+    // weak work conservation, applicable whenever nothing may legitimately hold a
+    // dispatch back: eager parser, no fail-fast, no serial scenario. A scenario
+    // that has never started must not sit idle next to a free slot (retries that
+    // wait for their delay are not counted).
+    let weak = !cfg.lazy && !cfg.fail_fast() && !an.scens.iter().any(|s| s.serial) && cfg.gran == Gran::L0;
+    let mut ever_started: BTreeSet<String> = BTreeSet::new();
     for (i, te) in tr.events.iter().enumerate() {
         // quiescent points before event i
         while let Some(&&qa) = q.peek() {
@@ -750,9 +756,27 @@ pub fn c06(cfg: &Config, tr: &Trace, an: &Analysis, out: &mut Vec<Violation>) {
                 if cfg.expect_conservation && qa == i {
                     check_conservation(limit, in_flight, total_scen - finished_total, i, out);
                 }
+                if weak && qa == i && i > 0 {
+                    let never = total_scen - ever_started.len();
+                    let free = limit.map_or(true, |k| (in_flight as usize) < k);
+                    // the run-level Started must have been seen (the runner is past its first poll)
+                    let running = tr.events[..i].iter().any(|e| e.ev == Ev::Started);
+                    if running && never > 0 && free && out.iter().all(|x| x.key != "idle-next-to-free-slot") {
+                        out.push(v(
+                            "C06",
+                            "idle-next-to-free-slot",
+                            format!(
+                                "quiescent before event #{i}: {never} scenarios never started, {in_flight} in flight, limit {limit:?}"
+                            ),
+                        ));
+                    }
+                }
             } else {
                 break;
             }
+        }
+        if let Some((name, _, ScEv::Started)) = te.ev.scenario() {
+            ever_started.insert(name.to_owned());
         }
         if let Some((name, retries, ev)) = te.ev.scenario() {
             let cur = retries.map_or(0, |r| r.0);
